@@ -117,6 +117,17 @@ def run(tier):
     import checks.c15 as c15
     corp = [s for s in c15.corpus(300 if tier == "quick" else 5000, r) if "{" not in s]
     corp = corp + [x for x in G.grammar_sentences(r, 60 if tier == "quick" else 600) if "{" not in x]
+    # undetermined linkages, and residues that carry their own anomer letter in front of an undetermined or a different
+    # linkage anomer ('Mana(?1-4)Glc', 'Galb?4Glc'): the edge keeps the linkage as written
+    import re as _re0
+    qmore = []
+    for s_ in texts[:60 if tier == "quick" else 500]:
+        v1 = _re0.sub(r"([A-Za-z0-9])\(([ab])(\d)-(\d)\)", lambda m_: m_.group(1) + m_.group(2) + "(?" + m_.group(3) + "-" + m_.group(4) + ")", s_, count=1)
+        v2 = _re0.sub(r"([A-Za-z0-9])\(([ab])(\d)-(\d)\)", lambda m_: m_.group(1) + r.choice("ab") + "?" + m_.group(4), s_, count=1)
+        v3 = _re0.sub(r"\(([ab])(\d)-(\d)\)", lambda m_: "(?" + m_.group(2) + "-" + r.choice(["?", m_.group(3)]) + ")", s_, count=r.randint(1, 2))
+        v4 = _re0.sub(r"([A-Za-z0-9])\(([ab])(\d)-(\d)\)", lambda m_: m_.group(1) + ("b" if m_.group(2) == "a" else "a") + "(" + m_.group(2) + m_.group(3) + "-" + m_.group(4) + ")", s_, count=1)
+        qmore += [x for x in (v1, v2, v3, v4) if x != s_ and drv.call("accepts", x) == "1"]
+    corp = corp + sorted(set(qmore))
     all_inputs = texts + foreign + corp
     outs = C.run_impl_parallel("trees", all_inputs)
     stats = {"generated_ok": 0, "reader_ok": 0, "foreign_rejected": 0, "foreign_accepted_derivable": 0, "corpus_accepted": 0}
